@@ -62,6 +62,11 @@ impl HashSet<usize> {
     pub fn into_iter(self) -> (r: SetIntoIter<usize>) { unimplemented!() }
 }
 /// `&a - &b`: set difference
+/// std `Clone for HashSet`: an independent set with the same elements
+impl Clone for HashSet<usize> {
+    #[verifier::external_body]
+    fn clone(&self) -> (r: Self) ensures r.view() == self.view() { unimplemented!() }
+}
 impl<'a> core::ops::Sub<&'a HashSet<usize>> for &'a HashSet<usize> {
     type Output = HashSet<usize>;
     #[verifier::external_body]
